@@ -32,6 +32,33 @@ pub struct Inner {
     pub tag: AtomicU32,
 }
 
+/// What a projection of the null value shows.
+pub static NULL_INNER: Inner = Inner {
+    tag: AtomicU32::new(0),
+};
+
+impl Obj {
+    pub fn inner_ref(&self) -> &Inner {
+        &self.inner
+    }
+    /// (id, alive) as the memory says
+    pub fn peek(&self) -> (u32, bool) {
+        (self.id.load(Relaxed), self.alive.load(Relaxed) == 1)
+    }
+}
+
+/// A dummy object for projections of null.
+pub static NULL_OBJ: Obj = Obj {
+    cnt: AtomicUsize::new(0),
+    id: AtomicU32::new(0),
+    alive: AtomicU32::new(1),
+    parent: std::sync::atomic::AtomicI64::new(-1),
+    pdrop: AtomicU32::new(0),
+    inner: Inner {
+        tag: AtomicU32::new(0),
+    },
+};
+
 #[derive(Clone, Copy, PartialEq, Eq, Debug)]
 pub enum Reuse {
     Never,
@@ -180,6 +207,10 @@ impl VPtr {
             o.alive.load(Relaxed) == 1,
             o.inner.tag.load(Relaxed),
         )
+    }
+
+    pub fn obj_ref(&self) -> &Obj {
+        self.obj()
     }
 
     pub fn inner(&self) -> &Inner {
